@@ -28,6 +28,10 @@ UNITS = {
 }
 
 UNITS["C02"] = [
+    dict(kind="verus", name="c02_booked", template="specs/c02_booked.vrs",
+         under_contract=["BookedVersions::contains_version", "BookedVersions::last", "BookedVersions::snapshot", "BookedVersions::commit_snapshot", "BookedVersions::insert_partial"],
+         vacuity=["contains_version", "snapshot", "commit_snapshot", "insert_partial"],
+         assumptions=["contracts of RangeInclusiveSet::{iter,extend}, Iterator::any, BTreeMap::entry/Vacant::insert/Occupied::get_mut, core::cmp::max on Option<newtype>, core::mem::take (lib/*.vrs)"]),
     dict(kind="verus", name="c02_partial", template="specs/c02_partial.vrs",
          under_contract=["PartialVersion::is_complete", "PartialVersion::full_range"],
          vacuity=["is_complete", "full_range"], replay="c02_partial",
